@@ -12,6 +12,7 @@ res=""
 /venv/bin/python $src/demo.py >/tmp/confirm/$name.clean.log 2>&1; c=$?
 if ! git apply $src/patch.diff 2>/tmp/confirm/$name.apply.log; then
   if ! git apply --3way $src/patch.diff 2>>/tmp/confirm/$name.apply.log; then echo "$name APPLY-FAILED"; cd /repo; git worktree remove --force $wt; exit 3; fi
+  git reset -q   # a 3-way apply stages the change: unstage it so that `git diff` sees it
 fi
 if git diff --name-only | grep -q ctraits.c; then gcc -shared -fPIC -O2 -DNDEBUG -fno-strict-overflow -I$(/venv/bin/python -c "import sysconfig;print(sysconfig.get_paths()[\"include\"])") traits/ctraits.c -o traits/ctraits.cpython-312-x86_64-linux-gnu.so >/tmp/confirm/$name.build.log 2>&1 || { echo "$name BUILD-FAILED"; cd /repo; git worktree remove --force $wt; exit 4; }; fi
 /venv/bin/python $src/demo.py >/tmp/confirm/$name.patched.log 2>&1; p=$?
